@@ -91,10 +91,16 @@ def IsPath (G : Graph) : List Nat → Prop
   | [i] => i < G.length
   | i :: j :: rest => (∃ f, G[i]? = some f ∧ j ∈ f.calls) ∧ IsPath G (j :: rest)
 
+/-- the lock function number `i` acquires (0 none, 1 shared, 2 exclusive) -/
+def rankAt (G : Graph) (i : Nat) : Nat :=
+  match G[i]? with
+  | some f => f.lock.rank
+  | none => 0
+
 /-- the strongest lock acquired by a function on the path (0 none, 1 shared, 2 exclusive) -/
 def heldRank (G : Graph) : List Nat → Nat
   | [] => 0
-  | i :: rest => max (match G[i]? with | some f => f.lock.rank | none => 0) (heldRank G rest)
+  | i :: rest => max (rankAt G i) (heldRank G rest)
 
 /-- for diagnostics: the functions that break `verifyAt` -/
 def offenders (G : Graph) : List String :=
